@@ -187,7 +187,12 @@ def main():
     out.append("\n## 8. Seeded changes: which check catches what\n")
     out.append("Each seed was written by a fresh sub-agent that saw only the property text and a scratch worktree; the patch passes the "
                "44 tests.  `bin/seedtest <dir> <Cxx>` applies it, runs demo, tests and the check, and restores the tree.  Where a check "
-               "first missed a seed it was strengthened (last column).\n")
+               "first missed a seed it was strengthened (last column).  `bin/seedall [jobs] [pattern]` is the regression over the whole "
+               "table: every seed against the quick tier of the check that owns it, each in its own scratch worktree (28 minutes with ten "
+               "jobs).  Its last run, after the tenth round: 273 rows, all caught by the owning check's quick tier except two that had "
+               "depended on one or two random cases and had been lost when the generators grew (C01-f; C03-c, -e, -g were found the "
+               "same way) - directed case families on their own random streams now cover those shapes, so they no longer depend on "
+               "the stream.  Generators draw new case families from separate streams for the same reason.\n")
     res = open(os.path.join(VERIF, "seeded", "RESULTS.md")).read()
     out.append(res[res.index("| seed |"):])
     with open(os.path.join(VERIF, "DESIGN.md"), "w") as f:
